@@ -577,6 +577,71 @@ example : (typeCheck [.func { fnCs "a" with hasBody := false, threads := some (2
     (fun s => s.pipes.map (fun p => p.stages.map (·.tgs))) = some [[none]] := by decide
 
 
+/-! ## the module a pipeline is built from: declared functions **and** what the blocks' property values instantiate -/
+
+/-- `compile()` with a build function that sees the whole module: the function registry of the declarations and the
+    template instantiations left behind by the property values of the file's Pipeline blocks -/
+def compileFileM (build : List FnDecl × List String → Option (Pipeline IrPipe) → Except ε β) (items : List Item) (m : Mode) :
+    FileOutcome β ε :=
+  compileFile (fun reg => build (reg, instancesOf items)) items m
+
+theorem instancesOf_deletePipes (keep : String → Bool) (items : List Item)
+    (h : ∀ d, Item.pipe d ∈ items → keep d.name = false → instantiatedBy d = []) :
+    instancesOf (deletePipes keep items) = instancesOf items := by
+  induction items with
+  | nil => rfl
+  | cons it rest ih =>
+    have ih' := ih (fun d hd => h d (List.mem_cons_of_mem _ hd))
+    cases it with
+    | func f => rw [deletePipes_func]; simp only [instancesOf, ih']
+    | pipe d =>
+      cases hk : keep d.name with
+      | true => rw [deletePipes_pipe_keep _ _ _ hk]; simp only [instancesOf, ih']
+      | false =>
+        rw [deletePipes_pipe_drop _ _ _ hk]
+        simp only [instancesOf, ih', h d (List.mem_cons_self ..) hk, List.nil_append]
+
+/-- **Independence with the whole module in view — the part that holds** (`_partial`: it needs the hypothesis that the
+    deleted blocks have no property value that instantiates a function template; without it the statement is false on
+    the real compiler, see `module_depends_on_instantiating_block`).  For an accepted file, compiling pipeline `n` by
+    name gives the same outcome with or without the other blocks, for any build function of (function registry,
+    instantiations, selected pipeline). -/
+theorem independent_of_other_pipelines_module_partial
+    (build : List FnDecl × List String → Option (Pipeline IrPipe) → Except ε β)
+    (items : List Item) (s : TState) (h : typeCheck items = .ok s) (keep : String → Bool) (n : String)
+    (hk : keep n = true)
+    (hinst : ∀ d, Item.pipe d ∈ items → keep d.name = false → instantiatedBy d = []) :
+    compileFileM build (deletePipes keep items) (.named n) = compileFileM build items (.named n) := by
+  unfold compileFileM
+  rw [instancesOf_deletePipes keep items hinst]
+  exact independent_of_other_pipelines_file _ items s h keep n hk
+
+/-- the reduced defect program (corpus/C17.txt): `P0` carries `DefaultBindGroup = sizeof(wide_tf<uint>(1u))` -/
+def instWitness : List Item :=
+  [.func { name := "wide_tf", shape := "z", isTemplate := true, hasBody := true, threads := none },
+   .func (fnCs "cs_0"), .func (fnCs "cs_1"),
+   .pipe { name := "P0", props := [("ComputeShader", .single (.ident "cs_0")), ("DefaultBindGroup", .single (.sizeofInst "wide_tf"))] },
+   .pipe (blockCs "P1" "cs_1")]
+
+/-- a build function that returns the instantiations it finds in the module (the emitted source contains them) -/
+def buildShowsInstances : List FnDecl × List String → Option (Pipeline IrPipe) → Except Unit (List String) :=
+  fun m _ => .ok m.2
+
+/-- **Negation, with a concrete witness** (replayed on the real compiler by the corpus; known finding
+    `property-value-instantiates-template`): the file is accepted (`P0` gets default bind group 4), block `P1` has no
+    instantiating value, and yet pipeline `P1` compiled by name is built from a module that contains the instantiation
+    `wide_tf<uint>` when block `P0` is in the file and from one that does not when `P0` is deleted - so the returned
+    source of `P1` depends on whether another pipeline is defined. -/
+theorem module_depends_on_instantiating_block :
+    (typeCheck instWitness).toOption.map (fun s => s.pipes.map (fun p => (p.name, p.group))) = some [("P0", 4), ("P1", 0)] ∧
+    instantiatedBy (blockCs "P1" "cs_1") = [] ∧
+    (match compileFileM buildShowsInstances instWitness (.named "P1") with
+      | .out (.ok [x]) => some x | _ => none) = some ["wide_tf"] ∧
+    (match compileFileM buildShowsInstances (deletePipes (· == "P1") instWitness) (.named "P1") with
+      | .out (.ok [x]) => some x | _ => none) = some [] := by
+  refine ⟨by decide, by decide, by decide, by decide⟩
+
+
 /-! ## the reported HLSL entry name (composition with C15's model of the name map) -/
 
 open RsslVerif.Model RsslVerif.Model.PipelineNames in
